@@ -14,8 +14,10 @@ from nasim.scenarios.benchmark import AVAIL_BENCHMARKS
 from nasim.envs.action import FlatActionSpace, ParameterisedActionSpace
 bad, n_ids, n_made = [], 0, 0
 small = {"tiny", "tiny-hard", "tiny-small", "small"}
+from nasim.scenarios import make_benchmark_scenario
 for b in AVAIL_BENCHMARKS:
     base = "".join(g.capitalize() for g in b.split("-"))
+    limit = make_benchmark_scenario(b, 0).step_limit     # the scenario's own horizon (C06: the only source of truncation)
     for fully in (True, False):
         for d2 in (False, True):
             for va in (False, True):
@@ -29,6 +31,10 @@ for b in AVAIL_BENCHMARKS:
                 kw = dict(spec.kwargs)
                 if kw.get("scenario") != b or any(bool(kw.get(k)) != v for k, v in want.items()):
                     bad.append(f"{name}: registered kwargs {kw} do not match the documented name"); continue
+                if spec.max_episode_steps is not None and spec.max_episode_steps != limit:
+                    bad.append(f"{name}: registered with max_episode_steps={spec.max_episode_steps} but the scenario's step "
+                               f"limit is {limit}: gymnasium's TimeLimit wrapper would raise the step-limit flag at another step")
+                    continue
                 if b not in small:
                     continue
                 n_made += 1
